@@ -61,6 +61,11 @@ func GenTxOps(t *rapid.T, o TxGenOpts) []Op {
 				}
 			}
 		}
+		// now and then the caller's context is already cancelled (a request that timed out and runs its
+		// deferred Rollback, say): the inline binding ignores the context, so nothing may change
+		if k != "gc" && k != "reopen" && rapid.IntRange(0, 11).Draw(t, "cctx") == 0 {
+			op.Cctx = true
+		}
 		ops = append(ops, op)
 	}
 	return ops
